@@ -1,7 +1,7 @@
 (* C16 -- index-addressed rewriting transforms of Pure/Transforms.v:
    impose_at (+ impose_at_spec), partial, insert_missing (= tools.masked), synchronized.
-   No arithmetic is needed: everything holds for an arbitrary [Num] (section [Surgery]); [NumQ] is used only for the
-   concrete refutation witnesses. Helper lemmas are prefixed [sg_]. *)
+   No arithmetic is needed: everything holds for an arbitrary [Num] (section [Surgery]); [NumQ] is used only for a
+   concrete example. Helper lemmas are prefixed [sg_]. *)
 From Coq Require Import ZArith QArith List Bool Arith Lia Permutation Sorting.
 From MV Require Import Common.Num Common.Order Pure.Transforms.
 Import ListNotations.
@@ -299,6 +299,24 @@ Proof.
   - exists a; auto.
 Qed.
 
+Lemma sg_map_fst_combine_repeat : forall {A B} (l : list A) (v : B), map fst (combine l (repeat v (length l))) = l.
+Proof. induction l; simpl; intros; auto. f_equal; auto. Qed.
+
+Lemma sg_combine_split : forall {A B} (l : list (A * B)), combine (map fst l) (map snd l) = l.
+Proof. induction l as [|[a b] l IH]; simpl; auto. f_equal; auto. Qed.
+
+Lemma sg_writes_filter : forall {A} n (f : Z * A -> bool) m acc,
+  (forall kv, In kv m -> f kv = false -> norm_idx n (fst kv) = None) ->
+  sg_writes n (filter f m) acc = sg_writes n m acc.
+Proof.
+  intros A n f. unfold sg_writes. induction m as [|a m IH]; intros acc H; simpl; auto.
+  destruct (f a) eqn:E; simpl.
+  - apply IH. intros; apply H; auto. right; auto.
+  - rewrite IH by (intros; apply H; auto; right; auto).
+    assert (X : sg_wr n acc a = acc) by (unfold sg_wr; rewrite (H a); auto; left; auto).
+    rewrite X. reflexivity.
+Qed.
+
 Section Surgery.
   Variable N : Num.
   Notation T := (T N).
@@ -308,66 +326,63 @@ Section Surgery.
     impose_at_spec N index vs x = sg_writes (length x) (combine index vs) x.
   Proof. reflexivity. Qed.
 
-  (* a successful call is a sequence of guarded writes that depends on x only through its length *)
-  Lemma sg_impose_at_some : forall index t (x y : list T),
-    impose_at N index t x = Some y ->
-    exists vs' : list T,
-      (forall z, length z = length x ->
-         impose_at N index t z = Some (sg_writes (length x) (combine (sg_kept (length x) index) vs') z)) /\
-      match t with
-      | TScalar _ v => vs' = repeat v (length (sg_kept (length x) index))
-      | TList _ vs => (length vs = length (sg_kept (length x) index) /\ vs' = vs) \/
-                      (vs = [nth 0 vs (zero N)] /\ vs' = repeat (nth 0 vs (zero N)) (length (sg_kept (length x) index)))
-      end.
+  (* the (index, value) pairs that a call on a vector of length n writes, in order *)
+  Definition sg_imask (n : nat) (index : list Z) (t : target N) : list (Z * T) :=
+    match t with
+    | TScalar _ v => combine (sg_kept n index) (repeat v (length (sg_kept n index)))
+    | TList _ vs => filter (fun iv : Z * T => (fst iv <? Z.of_nat n)%Z) (combine index vs)
+    end.
+
+  (* impose_at is a sequence of guarded writes that depends on x only through its length *)
+  Lemma sg_impose_at_eq : forall index t (x : list T),
+    impose_at N index t x =
+    match norm_all (length x) (map fst (sg_imask (length x) index t)) with
+    | None => None
+    | Some _ => Some (sg_writes (length x) (sg_imask (length x) index t) x)
+    end.
   Proof.
-    intros index t x y H. unfold impose_at in H. fold (sg_kept (length x) index) in H.
-    destruct (norm_all (length x) (sg_kept (length x) index)) as [ps|] eqn:E; [|discriminate].
-    pose proof (sg_norm_all_length _ _ _ E) as Hps.
-    assert (F : Forall2 (fun z p => norm_idx (length x) z = Some p) (sg_kept (length x) index) ps)
-      by (apply sg_norm_all_Forall2; auto).
-    destruct t as [v|vs].
-    - exists (repeat v (length (sg_kept (length x) index))). split; auto.
-      intros z Hz. unfold impose_at. fold (sg_kept (length z) index). rewrite Hz, E, Hps. f_equal.
-      apply sg_scatter_writes; auto.
-    - destruct (Nat.eqb (length vs) (length ps)) eqn:Eq.
-      + exists vs. split.
-        * intros z Hz. unfold impose_at. fold (sg_kept (length z) index). rewrite Hz, E, Eq. f_equal.
-          apply sg_scatter_writes; auto.
-        * left. apply Nat.eqb_eq in Eq. split; auto. lia.
-      + destruct vs as [|v [|v2 vs]]; try discriminate.
-        exists (repeat v (length (sg_kept (length x) index))). split.
-        * intros z Hz. unfold impose_at. fold (sg_kept (length z) index). rewrite Hz, E, Eq, Hps. f_equal.
-          apply sg_scatter_writes; auto.
-        * right. simpl. auto.
+    intros index t x. unfold impose_at. destruct t as [v|vs]; simpl sg_imask.
+    - fold (sg_kept (length x) index). rewrite sg_map_fst_combine_repeat.
+      destruct (norm_all (length x) (sg_kept (length x) index)) as [ps|] eqn:E; auto.
+      f_equal. rewrite (sg_norm_all_length _ _ _ E). apply sg_scatter_writes. apply sg_norm_all_Forall2; auto.
+    - set (at_ := filter (fun iv : Z * T => (fst iv <? Z.of_nat (length x))%Z) (combine index vs)).
+      destruct (norm_all (length x) (map fst at_)) as [ps|] eqn:E; auto.
+      f_equal. rewrite (sg_scatter_writes (length x) (map fst at_) ps); [|apply sg_norm_all_Forall2; auto].
+      rewrite sg_combine_split. reflexivity.
   Qed.
 
-  Lemma sg_impose_at_writes : forall index t (x y : list T),
-    impose_at N index t x = Some y ->
-    exists vs' : list T, y = sg_writes (length x) (combine (sg_kept (length x) index) vs') x /\
-      match t with
-      | TScalar _ v => vs' = repeat v (length (sg_kept (length x) index))
-      | TList _ vs => True
-      end.
+  Lemma sg_imask_in : forall n index t kv,
+    In kv (sg_imask n index t) -> In (fst kv) index /\ (fst kv < Z.of_nat n)%Z.
   Proof.
-    intros index t x y H. destruct (sg_impose_at_some _ _ _ _ H) as [vs' [H1 H2]].
-    exists vs'. split.
-    - rewrite H1 in H by auto. congruence.
-    - destruct t; auto.
+    intros n index [v|vs] [i w] H; simpl in *.
+    - apply in_combine_l in H. apply sg_kept_in in H. auto.
+    - apply filter_In in H. destruct H as [H1 H2]. simpl in H2. apply Z.ltb_lt in H2.
+      apply in_combine_l in H1. auto.
+  Qed.
+
+  Lemma sg_impose_at_some : forall index t (x y : list T),
+    impose_at N index t x = Some y ->
+    y = sg_writes (length x) (sg_imask (length x) index t) x /\
+    forall z, length z = length x ->
+      impose_at N index t z = Some (sg_writes (length x) (sg_imask (length x) index t) z).
+  Proof.
+    intros index t x y H. rewrite sg_impose_at_eq in H.
+    destruct (norm_all (length x) (map fst (sg_imask (length x) index t))) eqn:E; [|discriminate].
+    split; [congruence|]. intros z Hz. rewrite sg_impose_at_eq, Hz, E. reflexivity.
   Qed.
 
   Theorem impose_at_length : forall index t (x y : list T),
     impose_at N index t x = Some y -> length y = length x.
   Proof.
-    intros index t x y H. destruct (sg_impose_at_writes _ _ _ _ H) as [vs' [-> _]].
-    apply sg_writes_length.
+    intros index t x y H. destruct (sg_impose_at_some _ _ _ _ H) as [-> _]. apply sg_writes_length.
   Qed.
 
   Theorem impose_at_scalar_pinned : forall index v (x y : list T) i p d,
     impose_at N index (TScalar N v) x = Some y -> In i index -> norm_idx (length x) i = Some p ->
     nth p y d = v.
   Proof.
-    intros index v x y i p d H Hi Hp. destruct (sg_impose_at_writes _ _ _ _ H) as [vs' [-> ->]].
-    rewrite sg_nth_writes by auto.
+    intros index v x y i p d H Hi Hp. destruct (sg_impose_at_some _ _ _ _ H) as [-> _].
+    rewrite sg_nth_writes by auto. simpl sg_imask.
     rewrite (sg_lastw_consistent (length x) p _ i v); auto.
     - intros [a b] [a' b'] H1 H2 _ _. simpl.
       apply in_combine_r in H1, H2. apply repeat_spec in H1, H2. congruence.
@@ -379,108 +394,82 @@ Section Surgery.
     (forall i, In i index -> norm_idx (length x) i <> Some p) ->
     nth p y d = nth p x d.
   Proof.
-    intros index t x y p d H _ Hno. destruct (sg_impose_at_writes _ _ _ _ H) as [vs' [-> _]].
+    intros index t x y p d H _ Hno. destruct (sg_impose_at_some _ _ _ _ H) as [-> _].
     rewrite sg_nth_writes by auto.
-    replace (sg_lastw (length x) p (combine (sg_kept (length x) index) vs')) with (@None T); auto.
-    symmetry. apply sg_lastw_none. intros [a b] Hab. simpl.
-    apply in_combine_l in Hab. apply sg_kept_in in Hab. apply Hno. tauto.
+    replace (sg_lastw (length x) p (sg_imask (length x) index t)) with (@None T); auto.
+    symmetry. apply sg_lastw_none. intros kv Hkv. apply sg_imask_in in Hkv. apply Hno. tauto.
   Qed.
 
+  (* the only failure left is the IndexError of an index below -len(x) (among the zipped pairs for a list target) *)
   Theorem impose_at_none_iff : forall index t (x : list T),
     impose_at N index t x = None <->
-    (exists i, In i index /\ (i < - Z.of_nat (length x))%Z) \/
-    (exists vs, t = TList N vs /\
-       length vs <> length (filter (fun i => (i <? Z.of_nat (length x))%Z) index) /\ length vs <> 1).
+    match t with
+    | TScalar _ _ => exists i, In i index /\ (i < - Z.of_nat (length x))%Z
+    | TList _ vs => exists iv, In iv (combine index vs) /\ (fst iv < - Z.of_nat (length x))%Z
+    end.
   Proof.
-    intros index t x. fold (sg_kept (length x) index). unfold impose_at. fold (sg_kept (length x) index).
-    destruct (norm_all (length x) (sg_kept (length x) index)) as [ps|] eqn:E.
-    - pose proof (sg_norm_all_length _ _ _ E) as Hps.
-      split.
-      + intros H. right. destruct t as [v|vs]; [discriminate|].
-        destruct (Nat.eqb_spec (length vs) (length ps)); [discriminate|].
-        exists vs. split; auto. split; [lia|].
-        destruct vs as [|v [|v2 vs]]; simpl; try discriminate; lia.
-      + intros [[i [Hi Hlt]]|[vs [-> [H1 H2]]]].
-        * exfalso. apply (sg_norm_all_some_in _ _ _ i E).
-          -- apply sg_kept_in. split; auto. lia.
-          -- apply sg_norm_idx_none. auto.
-        * destruct (Nat.eqb_spec (length vs) (length ps)); [lia|].
-          destruct vs as [|v [|v2 vs]]; simpl in *; try lia; reflexivity.
-    - split; auto. intros _. left.
-      apply sg_norm_all_none in E. destruct E as [z [Hz Hn]].
-      apply sg_kept_in in Hz. apply sg_norm_idx_none in Hn. exists z. split; [tauto|lia].
+    intros index t x. rewrite sg_impose_at_eq.
+    assert (X : norm_all (length x) (map fst (sg_imask (length x) index t)) = None <->
+                exists kv, In kv (sg_imask (length x) index t) /\ (fst kv < - Z.of_nat (length x))%Z).
+    { rewrite sg_norm_all_none. split.
+      - intros [z [Hz Hn]]. apply in_map_iff in Hz. destruct Hz as [kv [<- Hkv]].
+        exists kv. split; auto. apply sg_imask_in in Hkv. apply sg_norm_idx_none in Hn. lia.
+      - intros [kv [Hkv Hlt]]. exists (fst kv). split; [apply in_map; auto|].
+        apply sg_norm_idx_none. auto. }
+    transitivity (norm_all (length x) (map fst (sg_imask (length x) index t)) = None).
+    { destruct (norm_all _ _); split; auto; discriminate. }
+    rewrite X. destruct t as [v|vs]; simpl sg_imask.
+    - split.
+      + intros [[i w] [H1 H2]]. exists i. split; auto. apply in_combine_l in H1. apply sg_kept_in in H1. tauto.
+      + intros [i [H1 H2]]. exists (i, v). split; auto. apply sg_in_combine_repeat. apply sg_kept_in. split; auto. lia.
+    - split.
+      + intros [iv [H1 H2]]. exists iv. split; auto. apply filter_In in H1. tauto.
+      + intros [iv [H1 H2]]. exists iv. split; auto. apply filter_In. split; auto. apply Z.ltb_lt. lia.
   Qed.
 
+  (* The documented behaviour (targets are paired with the indices; indices beyond the end are dropped together with
+     their targets; a later write to the same position wins) HOLDS, without any length hypothesis: *)
   Theorem impose_at_list_is_spec : forall index vs (x : list T),
-    length vs = length index -> (forall i, In i index -> norm_idx (length x) i <> None) ->
+    (forall iv, In iv (combine index vs) -> (- Z.of_nat (length x) <= fst iv)%Z) ->
     impose_at N index (TList N vs) x = Some (impose_at_spec N index vs x).
   Proof.
-    intros index vs x Hl Hok. unfold impose_at. fold (sg_kept (length x) index).
-    rewrite sg_kept_all by auto.
-    destruct (norm_all (length x) index) as [ps|] eqn:E.
-    - pose proof (sg_norm_all_length _ _ _ E) as Hps.
-      replace (length vs =? length ps) with true by (symmetry; apply Nat.eqb_eq; lia).
-      f_equal. rewrite sg_spec_writes. apply sg_scatter_writes. apply sg_norm_all_Forall2; auto.
-    - exfalso. apply sg_norm_all_none in E. destruct E as [z [Hz Hn]]. apply (Hok z); auto.
+    intros index vs x Hok.
+    destruct (impose_at N index (TList N vs) x) as [y|] eqn:E.
+    - destruct (sg_impose_at_some _ _ _ _ E) as [-> _]. f_equal. rewrite sg_spec_writes. simpl sg_imask.
+      apply sg_writes_filter. intros kv _ Hf. apply Z.ltb_ge in Hf. apply sg_norm_idx_none. auto.
+    - exfalso. apply impose_at_none_iff in E. destruct E as [iv [H1 H2]]. specialize (Hok iv H1). lia.
   Qed.
 
-  (* distinct positions: the k-th position holds the k-th target *)
-  Theorem impose_at_list_pinned : forall index vs (x y : list T) ps k d,
-    impose_at N index (TList N vs) x = Some y -> length vs = length index ->
-    norm_all (length x) index = Some ps -> NoDup ps -> k < length index ->
-    nth (nth k ps 0) y d = nth k vs d.
-  Proof.
-    intros index vs x y ps k d H Hl E Hnd Hk.
-    pose proof (sg_norm_all_length _ _ _ E) as Hps.
-    unfold impose_at in H. fold (sg_kept (length x) index) in H.
-    rewrite sg_kept_all in H by (intros i Hi; eapply sg_norm_all_some_in; eauto).
-    rewrite E in H.
-    replace (length vs =? length ps) with true in H by (symmetry; apply Nat.eqb_eq; lia).
-    inversion H; subst y. apply sg_scatter_pinned; auto; try lia.
-    apply sg_norm_all_Forall2 in E. intros p Hp. eapply sg_Forall2_norm_lt; eauto.
-  Qed.
-
-  (* Documented (docstring of impose_at): "indices beyond the end are dropped together with their targets", i.e.
-       forall index vs x, length vs = length index -> (forall i, In i index -> (0 <= i)%Z) ->
-         impose_at N index (TList N vs) x = Some (impose_at_spec N index vs x).
-     FALSE for list targets (finding F11): numpy raises a shape-mismatch ValueError as soon as one index is dropped
-     (unless the target list has length 1); see [impose_at_list_dropped_refuted] after the section. *)
-  Theorem impose_at_list_dropped_partial : forall index vs (x : list T),
+  Theorem impose_at_list_dropped_ok : forall index vs (x : list T),
     length vs = length index -> (forall i, In i index -> (0 <= i)%Z) ->
-    (impose_at N index (TList N vs) x = None <->
-     (exists i, In i index /\ (Z.of_nat (length x) <= i)%Z) /\ length vs <> 1).
+    impose_at N index (TList N vs) x = Some (impose_at_spec N index vs x).
   Proof.
-    intros index vs x Hl Hpos. rewrite impose_at_none_iff. fold (sg_kept (length x) index).
-    split.
-    - intros [[i [Hi Hlt]]|[vs0 [Heq [H1 H2]]]].
-      + specialize (Hpos i Hi). lia.
-      + inversion Heq; subst vs0. split; auto.
-        destruct (sg_filter_length_neq (fun i => (i <? Z.of_nat (length x))%Z) index) as [i [Hi Hf]].
-        * unfold sg_kept in H1. lia.
-        * exists i. split; auto. apply Z.ltb_ge in Hf. auto.
-    - intros [[i [Hi Hge]] H1]. right. exists vs. split; auto. split; auto.
-      intros Heq. unfold sg_kept in Heq. rewrite Hl in Heq. symmetry in Heq.
-      rewrite sg_filter_length_eq in Heq. specialize (Heq i Hi). apply Z.ltb_lt in Heq. lia.
+    intros index vs x _ Hpos. apply impose_at_list_is_spec.
+    intros [i v] H. apply in_combine_l in H. specialize (Hpos i H). simpl. lia.
   Qed.
 
-  (* the remaining corner: a single dropped index with a single target is dropped silently (as documented) *)
-  Theorem impose_at_list_dropped_single : forall i v (x : list T),
-    (Z.of_nat (length x) <= i)%Z ->
-    impose_at N [i] (TList N [v]) x = Some x /\ impose_at_spec N [i] [v] x = x.
+  (* distinct positions among the kept pairs: the k-th kept position holds the k-th kept target *)
+  Theorem impose_at_list_pinned : forall index vs (x y : list T) ps k d,
+    impose_at N index (TList N vs) x = Some y ->
+    norm_all (length x)
+      (map fst (filter (fun iv : Z * T => (fst iv <? Z.of_nat (length x))%Z) (combine index vs))) = Some ps ->
+    NoDup ps -> k < length ps ->
+    nth (nth k ps 0) y d =
+    nth k (map snd (filter (fun iv : Z * T => (fst iv <? Z.of_nat (length x))%Z) (combine index vs))) d.
   Proof.
-    intros i v x Hi. unfold impose_at, impose_at_spec. simpl.
-    replace (i <? Z.of_nat (length x))%Z with false by (symmetry; apply Z.ltb_ge; auto). simpl.
-    replace (norm_idx (length x) i) with (@None nat); auto.
-    symmetry. apply sg_norm_idx_none. auto.
+    intros index vs x y ps k d H E Hnd Hk.
+    pose proof (sg_norm_all_length _ _ _ E) as Hps.
+    unfold impose_at in H. rewrite E in H. injection H as <-.
+    apply sg_scatter_pinned; auto.
+    - rewrite map_length. rewrite map_length in Hps. auto.
+    - apply sg_norm_all_Forall2 in E. intros p Hp. eapply sg_Forall2_norm_lt; eauto.
   Qed.
 
   Theorem impose_at_idempotent : forall index t (x y : list T),
     impose_at N index t x = Some y -> impose_at N index t y = Some y.
   Proof.
-    intros index t x y H. pose proof (impose_at_length _ _ _ _ H) as Hlen.
-    destruct (sg_impose_at_some _ _ _ _ H) as [vs' [H1 _]].
-    rewrite (H1 x) in H by auto. injection H as Hy. subst y.
-    rewrite H1 by auto. f_equal. apply sg_writes_idem; auto.
+    intros index t x y H. destruct (sg_impose_at_some _ _ _ _ H) as [-> H1].
+    rewrite H1 by (apply sg_writes_length). f_equal. apply sg_writes_idem; auto.
   Qed.
 
   (* ---------------------------------------------------------------- B. partial *)
@@ -575,61 +564,59 @@ Section Surgery.
   Definition sg_src (s : source N) : Z := match s with SIdx _ j => j | SMul _ j _ => j end.
   Definition sg_apply (s : source N) (v : T) : T := match s with SIdx _ _ => v | SMul _ _ c => mul N c v end.
 
-  Definition sg_sync_step (arr : bool) (n : nat) (acc : list T) (kv : Z * source N) : list T :=
+  Definition sg_sync_step (n : nat) (acc : list T) (kv : Z * source N) : list T :=
     match snd kv with
     | SIdx _ j => match norm_idx n j, norm_idx n (fst kv) with
                 | Some pj, Some pi => set_nth acc pi (nth pj acc (zero N))
                 | _, _ => acc
                 end
-    | SMul _ j0 c => if arr then acc
-                   else match norm_idx n j0, norm_idx n (fst kv) with
-                        | Some pj, Some pi => set_nth acc pi (mul N c (nth pj acc (zero N)))
-                        | _, _ => acc
-                        end
+    | SMul _ j0 c => match norm_idx n j0, norm_idx n (fst kv) with
+                     | Some pj, Some pi => set_nth acc pi (mul N c (nth pj acc (zero N)))
+                     | _, _ => acc
+                     end
     end.
 
-  Lemma sg_sync_step_length : forall arr n acc kv, length (sg_sync_step arr n acc kv) = length acc.
+  Lemma sg_sync_step_length : forall n acc kv, length (sg_sync_step n acc kv) = length acc.
   Proof.
-    intros arr n acc [i s]. unfold sg_sync_step. simpl.
-    destruct s; [|destruct arr; auto]; destruct (norm_idx n _); auto; destruct (norm_idx n i); auto;
-      apply sg_set_nth_length.
+    intros n acc [i [j|j c]]; unfold sg_sync_step; simpl;
+      destruct (norm_idx n j); auto; destruct (norm_idx n i); auto; apply sg_set_nth_length.
   Qed.
 
-  Lemma sg_sync_fold : forall arr mask (x : list T),
-    synchronized N arr mask x = fold_left (sg_sync_step arr (length x)) mask x.
+  Lemma sg_sync_fold : forall mask (x : list T),
+    synchronized N mask x = fold_left (sg_sync_step (length x)) mask x.
   Proof.
     unfold synchronized. induction mask; intros x; simpl; auto.
-    etransitivity; [apply (IHmask (sg_sync_step arr (length x) x a))|].
+    etransitivity; [apply (IHmask (sg_sync_step (length x) x a))|].
     rewrite sg_sync_step_length. reflexivity.
   Qed.
 
-  Lemma sg_sync_fold_length : forall arr n mask (acc : list T),
-    length (fold_left (sg_sync_step arr n) mask acc) = length acc.
+  Lemma sg_sync_fold_length : forall n mask (acc : list T),
+    length (fold_left (sg_sync_step n) mask acc) = length acc.
   Proof. induction mask; intros acc; simpl; auto. rewrite IHmask. apply sg_sync_step_length. Qed.
 
-  Lemma sg_sync_step_other : forall arr n acc kv p d,
-    norm_idx n (fst kv) <> Some p -> nth p (sg_sync_step arr n acc kv) d = nth p acc d.
+  Lemma sg_sync_step_other : forall n acc kv p d,
+    norm_idx n (fst kv) <> Some p -> nth p (sg_sync_step n acc kv) d = nth p acc d.
   Proof.
-    intros arr n acc [i [j|j c]] p d H; unfold sg_sync_step; simpl in *; [|destruct arr; auto];
+    intros n acc [i [j|j c]] p d H; unfold sg_sync_step; simpl in *;
       destruct (norm_idx n j); auto; destruct (norm_idx n i) eqn:E; auto;
       apply sg_nth_set_nth_neq; congruence.
   Qed.
 
-  Lemma sg_sync_fold_other : forall arr n mask (acc : list T) p d,
+  Lemma sg_sync_fold_other : forall n mask (acc : list T) p d,
     (forall kv, In kv mask -> norm_idx n (fst kv) <> Some p) ->
-    nth p (fold_left (sg_sync_step arr n) mask acc) d = nth p acc d.
+    nth p (fold_left (sg_sync_step n) mask acc) d = nth p acc d.
   Proof.
     induction mask; intros acc p d H; simpl; auto.
     rewrite IHmask by (intros; apply H; right; auto).
     apply sg_sync_step_other. apply H; left; auto.
   Qed.
 
-  Theorem synchronized_length : forall arr mask (x : list T), length (synchronized N arr mask x) = length x.
+  Theorem synchronized_length : forall mask (x : list T), length (synchronized N mask x) = length x.
   Proof. intros. rewrite sg_sync_fold. apply sg_sync_fold_length. Qed.
 
-  Theorem synchronized_others_unchanged : forall arr mask (x : list T) p d,
+  Theorem synchronized_others_unchanged : forall mask (x : list T) p d,
     (forall kv, In kv mask -> norm_idx (length x) (fst kv) <> Some p) ->
-    nth p (synchronized N arr mask x) d = nth p x d.
+    nth p (synchronized N mask x) d = nth p x d.
   Proof. intros. rewrite sg_sync_fold. apply sg_sync_fold_other; auto. Qed.
 
   (* no key position is a source position (so no source is overwritten before it is read) *)
@@ -653,7 +640,7 @@ Section Surgery.
 
   Lemma sg_sync_step_hit : forall n (acc : list T) i s pi pj d,
     length acc = n -> norm_idx n i = Some pi -> norm_idx n (sg_src s) = Some pj ->
-    nth pi (sg_sync_step false n acc (i, s)) d = sg_apply s (nth pj acc d).
+    nth pi (sg_sync_step n acc (i, s)) d = sg_apply s (nth pj acc d).
   Proof.
     intros n acc i s pi pj d Hl Hi Hj. unfold sg_sync_step. simpl.
     assert (Hpi : pi < length acc) by (rewrite Hl; eapply sg_norm_idx_lt; eauto).
@@ -665,7 +652,7 @@ Section Surgery.
   Lemma sg_sync_tied : forall n mask (acc : list T) i s pi pj d,
     length acc = n -> sg_sources_untouched n mask -> sg_distinct_positions n mask ->
     In (i, s) mask -> norm_idx n i = Some pi -> norm_idx n (sg_src s) = Some pj ->
-    nth pi (fold_left (sg_sync_step false n) mask acc) d = sg_apply s (nth pj acc d).
+    nth pi (fold_left (sg_sync_step n) mask acc) d = sg_apply s (nth pj acc d).
   Proof.
     induction mask as [|a r IH]; intros acc i s pi pj d Hl Hs Hd Hin Hi Hj; simpl; [destruct Hin|].
     assert (Hs' : sg_sources_untouched n r).
@@ -687,7 +674,7 @@ Section Surgery.
   Theorem synchronized_tied : forall mask (x : list T) i j pi pj d,
     sg_sources_untouched (length x) mask -> sg_distinct_positions (length x) mask ->
     In (i, SIdx N j) mask -> norm_idx (length x) i = Some pi -> norm_idx (length x) j = Some pj ->
-    nth pi (synchronized N false mask x) d = nth pj x d.
+    nth pi (synchronized N mask x) d = nth pj x d.
   Proof.
     intros. rewrite sg_sync_fold.
     rewrite (sg_sync_tied (length x) mask x i (SIdx N j) pi pj d); auto.
@@ -696,24 +683,12 @@ Section Surgery.
   Theorem synchronized_tied_mul : forall mask (x : list T) i j0 c pi pj d,
     sg_sources_untouched (length x) mask -> sg_distinct_positions (length x) mask ->
     In (i, SMul N j0 c) mask -> norm_idx (length x) i = Some pi -> norm_idx (length x) j0 = Some pj ->
-    nth pi (synchronized N false mask x) d = mul N c (nth pj x d).
+    nth pi (synchronized N mask x) d = mul N c (nth pj x d).
   Proof.
     intros. rewrite sg_sync_fold.
     rewrite (sg_sync_tied (length x) mask x i (SMul N j0 c) pi pj d); auto.
   Qed.
 
-  (* the array quirk: on a numpy array every {i: (j0, c)} entry is skipped silently *)
-  Theorem synchronized_array_ignores_tuple : forall i j0 c (x : list T),
-    synchronized N true [(i, SMul N j0 c)] x = x.
-  Proof. reflexivity. Qed.
-
-  Theorem synchronized_array_ignores_tuples : forall mask (x : list T),
-    (forall kv, In kv mask -> exists j0 c, snd kv = SMul N j0 c) ->
-    synchronized N true mask x = x.
-  Proof.
-    unfold synchronized. induction mask as [|a r IH]; intros x H; simpl; auto.
-    destruct (H a) as [j0 [c E]]; [left; auto|]. rewrite E. apply IH. intros; apply H; right; auto.
-  Qed.
 End Surgery.
 
 (* ================================================================== C. insert_missing (tools.masked) *)
@@ -1012,22 +987,8 @@ Section SurgeryInsert.
   Qed.
 End SurgeryInsert.
 
-(* ================================================================== refutations (concrete witnesses over Q) *)
-(* F11: the documented "indices beyond the end are dropped with their targets" fails for list targets:
-   index = [1; 3], target = [0; 2], x = [1; 1]: the docstring promises [1; 0], numpy raises ValueError. *)
-Theorem impose_at_list_dropped_refuted :
-  exists index vs x, length vs = length index /\ (forall i, In i index -> (0 <= i)%Z) /\
-    impose_at NumQ index (TList NumQ vs) x = None /\ impose_at_spec NumQ index vs x = [1%Q; 0%Q].
-Proof.
-  exists [1%Z; 3%Z], [0%Q; 2%Q], [1%Q; 1%Q].
-  split; [reflexivity|]. split.
-  - intros i [<-|[<-|[]]]; lia.
-  - split; vm_compute; reflexivity.
-Qed.
-
-(* "tied" fails on numpy arrays for {i: (j0, c)} entries: the entry is skipped *)
-Theorem synchronized_array_tuple_refuted :
-  exists x, synchronized NumQ true [(0%Z, SMul NumQ 1%Z 2%Q)] x <> synchronized NumQ false [(0%Z, SMul NumQ 1%Z 2%Q)] x.
-Proof.
-  exists [0%Q; 9%Q]. intros H. vm_compute in H. discriminate H.
-Qed.
+(* ================================================================== examples (over Q) *)
+(* the former F11 witness: the index beyond the end is dropped together with its target *)
+Example impose_at_list_dropped_example :
+  impose_at NumQ [1%Z; 3%Z] (TList NumQ [0%Q; 2%Q]) [1%Q; 1%Q] = Some [1%Q; 0%Q].
+Proof. vm_compute. reflexivity. Qed.
